@@ -71,6 +71,16 @@ def _base_cases(kind):
                     return (obj, sym.array(e, "u", (C,) + (N,) * D)), {}
                 return (obj, uh), {}
             out.append(Case(f"D={D},mask={'set' if masked else 'None'}", build))
+        if kind in ("fft", "ifft"):
+            # call sites also pass arrays with TWO leading axes (the flux u (x) u of the multi-channel conservative
+            # convection, shape (C, C, N, ..)): the transform must still run over the last D axes only -- a wrapper that
+            # lets the helper infer D from ndim would transform a channel axis as well (seeded/C08c-1)
+            def build2(e, D=D):
+                obj, uh, N = _nl_self(e, _Carrier, D, masked=True, dop=False)
+                C, C2 = sym.integer(e, "C", lo=1), sym.integer(e, "C2", lo=1)
+                shp = (N,) * D if kind == "fft" else wshape(D, N)
+                return (obj, sym.array(e, "u2", (C, C2) + shp, "real" if kind == "fft" else "complex")), {}
+            out.append(Case(f"D={D},two leading axes (C, C2, ...)", build2))
     return out
 
 
